@@ -5,7 +5,7 @@ from kernel_main import main, run  # noqa
 def extra(report, fam, tier, seed):
     import fragments
 
-    fragments.run(report, 4 if tier == "quick" else 5)
+    report.guarded("fragment triples", fragments.run, report, 4 if tier == "quick" else 5)
 
 
 def check(argv):
